@@ -132,7 +132,7 @@ theorem anyOverlap_cleaned_iff (ns fs : List Path)
 /-- An output that names a symbolic link also names the link's target:
 `getLogicalFileNames` contains it … -/
 theorem logicalNames_target (fs : List FsEnt) (name t : Path) (e : FsEnt)
-    (hclean : cleanAbs name = name) (hf : fsFind fs name = some e) (hl : e.link = some t)
+    (hclean : cleanAbs name = name) (hf : lfind fs name = some e) (hl : e.link = some t)
     (habs : isAbs t = true) : t ∈ logicalNames fs name :=
   logicalNames_target' fs name t e hclean hf hl habs
 
@@ -141,12 +141,33 @@ not removed while the argument is held (a stage that writes its data under
 files/real/ and hands out a link to it keeps the data). -/
 theorem link_target_referenced (c : Cfg) (a : Arg) (fs : List FsEnt) (name t : Path) (e : FsEnt)
     (hfiles : ∀ x ∈ logicalNames fs name, x ∈ c.filesOf a)
-    (hclean : cleanAbs name = name) (hf : fsFind fs name = some e) (hl : e.link = some t)
+    (hclean : cleanAbs name = name) (hf : lfind fs name = some e) (hl : e.link = some t)
     (habs : isAbs t = true) : refs c a t = true := by
   have hm : t ∈ c.filesOf a := hfiles t (logicalNames_target fs name t e hclean hf hl habs)
   unfold refs anyOverlap
   have hne : (c.filesOf a).isEmpty = false := by
     rw [List.isEmpty_eq_false_iff_exists_mem]; exact ⟨t, hm⟩
+  simp [hne, hm]
+
+/-- A name that leads through linked PARENT components (a stage that returns
+`files/current/part.txt` with `files/current -> data`, or the canonical path
+of a pipestance reached through a symlinked directory) also names the fully
+resolved location: `getLogicalFileNames` contains it … -/
+theorem logicalNames_resolved (fs : List FsEnt) (name r : Path) (e : FsEnt)
+    (hf : lfind fs (cleanAbs name) = some e) (hr : evalSymlinks fs (cleanAbs name) = some r) :
+    r ∈ logicalNames fs name :=
+  logicalNames_resolved' fs name r e hf hr
+
+/-- … so the argument references the real file and its real directories, and
+by `kill_safe` they are not removed while the argument is held. -/
+theorem resolved_location_referenced (c : Cfg) (a : Arg) (fs : List FsEnt) (name r : Path) (e : FsEnt)
+    (hfiles : ∀ x ∈ logicalNames fs name, x ∈ c.filesOf a)
+    (hf : lfind fs (cleanAbs name) = some e) (hr : evalSymlinks fs (cleanAbs name) = some r) :
+    refs c a r = true := by
+  have hm : r ∈ c.filesOf a := hfiles r (logicalNames_resolved fs name r e hf hr)
+  unfold refs anyOverlap
+  have hne : (c.filesOf a).isEmpty = false := by
+    rw [List.isEmpty_eq_false_iff_exists_mem]; exact ⟨r, hm⟩
   simp [hne, hm]
 
 /-! ### non-vacuity -/
@@ -183,11 +204,16 @@ example :
         ["/p/files/a.txt".toList]) := by
   constructor <;> decide
 
-/-- links, chains and unclean link texts: the model computes what the code computes -/
+/-- links, chains, unclean link texts, and a linked parent directory: the model
+computes what the code computes -/
 example :
-    logicalNames [⟨"/p/f/lnk".toList, some "/p/f/real//x".toList⟩, ⟨"/p/f/real/x".toList, some "y".toList⟩,
-                  ⟨"/p/f/real/y".toList, none⟩] "/p/f/./lnk".toList
+    let fs : List FsEnt :=
+      [⟨"/p".toList, none⟩, ⟨"/p/f".toList, none⟩, ⟨"/p/f/real".toList, none⟩,
+       ⟨"/p/f/lnk".toList, some "/p/f/real//x".toList⟩, ⟨"/p/f/real/x".toList, some "y".toList⟩,
+       ⟨"/p/f/real/y".toList, none⟩, ⟨"/p/f/current".toList, some "real".toList⟩]
+    logicalNames fs "/p/f/./lnk".toList
       = ["/p/f/./lnk".toList, "/p/f/lnk".toList, "/p/f/real/y".toList, "/p/f/real/x".toList,
-         "/p/f/real//x".toList] := by decide
+         "/p/f/real//x".toList] ∧
+    logicalNames fs "/p/f/current/y".toList = ["/p/f/current/y".toList, "/p/f/real/y".toList] := by decide
 
 end Props.C04
